@@ -2,11 +2,13 @@
 (* Trace validation (TLC, small integers).  Every line is one case executed on *)
 (* the real channelLink: its inputs (the bandwidth is the one the real channel *)
 (* reported) and the verdicts of CheckHtlcForward (v) and CheckHtlcTransit     *)
-(* (vt).  Each line enables exactly Pick(that case); the judgement is the set  *)
-(* of invariants over the last consumed line: the recorded verdicts must agree *)
-(* with the rules in exact arithmetic - accepted iff nothing is violated, a    *)
-(* rejection names a violated rule.  The order of evaluation of the machine in *)
-(* ForwardPolicy.tla is NOT used here.                                         *)
+(* (vt).  The decision has no memory, so the trace is not a chain: from the    *)
+(* initial state every line i is one successor (Pick of exactly that case,     *)
+(* l = i + 1 as if lines 1..i had been consumed), which keeps a counterexample *)
+(* two states long.  The judgement is the set of invariants over the consumed  *)
+(* line: the recorded verdicts must agree with the rules in exact arithmetic - *)
+(* accepted iff nothing is violated, a rejection names a violated rule.  The   *)
+(* order of evaluation of the machine in ForwardPolicy.tla is NOT used here.   *)
 EXTENDS ForwardPolicy, Json, Sequences
 VARIABLE l
 
@@ -18,12 +20,16 @@ CaseOf(r) == [in |-> r.in, out |-> r.out, inExp |-> r.inExp, outExp |-> r.outExp
               rdelta |-> r.rdelta, maxCltv |-> r.maxCltv, ibase |-> r.ibase, irate |-> r.irate, bw |-> r.bw]
 
 TInit == Init /\ l = 1
-TNext == \/ /\ l <= Len(Trace) /\ Trace[l].a = "Case" /\ l' = l + 1
-            /\ c' = CaseOf(Trace[l]) /\ kind' = "fwd" /\ pc' = "pick" /\ verdict' = "none"
-         \/ (l = Len(Trace) + 1 /\ UNCHANGED <<vars, l>>)
+TNext == \/ /\ l = 1 /\ pc = "pick" /\ verdict = "none"
+            /\ \E i \in 1..Len(Trace) :
+                 /\ l' = i + 1
+                 /\ c' = CaseOf(Trace[i]) /\ kind' = "fwd" /\ pc' = "fee" /\ verdict' = "none"
+         \/ (pc = "fee" /\ UNCHANGED <<vars, l>>)
 TSpec == TInit /\ [][TNext]_<<vars, l>>
 
-Live == l > 1
+Live == pc = "fee"
+\* every line is a case record
+WellFormed == Live => Last.a = "Case"
 \* CheckHtlcForward agrees with the rules of the property
 ForwardAgrees == Live => Agree(c, Last.v)
 \* CheckHtlcTransit agrees with the outgoing-side rules
